@@ -229,3 +229,64 @@ def _domain_under_negation() -> Callable[[], None]:
         dep.DomainPredicates.add_domain_rules = orig
 
     return undo
+
+
+# ----------------------------------------------------------------------------------------------------------------
+# KF-sumchains-anon-group: an anonymous group argument ('#sum { L : shift(_,L) }', ':~ shift(_,L). [L@0]') merges the
+# chains of all groups under the constant 'none'.  The generated text is pinned by tests/test_sum_aggregates.py.
+# ----------------------------------------------------------------------------------------------------------------
+@repair("sumchains-anon-group")
+def _sumchains_anon_group() -> Callable[[], None]:
+    import ngo.sum_aggregates as sa
+    from clingo.ast import ASTType
+
+    orig = sa.SumAggregator._group_is_visible
+
+    def patched(trigger, terms, outer_vars):  # type: ignore[no-untyped-def]
+        trigger_lit, _, anon = trigger
+        for index, arg in enumerate(trigger_lit.atom.symbol.arguments):
+            if index not in anon.annotated_positions and arg.ast_type == ASTType.Variable and arg.name == "_":
+                return False
+        return orig(trigger, terms, outer_vars)
+
+    sa.SumAggregator._group_is_visible = staticmethod(patched)
+
+    def undo() -> None:
+        sa.SumAggregator._group_is_visible = staticmethod(orig)
+
+    return undo
+
+
+# ----------------------------------------------------------------------------------------------------------------
+# KF-sumchains-head-tuple: a head '#sum { 1 : shift(D,L) : len(L) } <= 1' is taken as 'at most one shift atom per D'
+# although the tuple '1' does not contain L: all atoms share one tuple, the bound does not limit them.
+# Pinned by tests/test_sum_aggregates.py::test_sum_aggregates_bound_detection.
+# ----------------------------------------------------------------------------------------------------------------
+@repair("sumchains-head-tuple")
+def _sumchains_head_tuple() -> Callable[[], None]:
+    import ngo.sum_aggregates as sa
+    from clingo.ast import ASTType
+    from ngo.utils.ast import collect_ast, collect_binding_information_body
+
+    orig = sa.SumAggregator._calc_at_most_on_rule
+
+    def patched(self, rule):  # type: ignore[no-untyped-def]
+        head = rule.head
+        if head.ast_type == ASTType.HeadAggregate:
+            global_vars = collect_binding_information_body(rule.body)[0]
+            for elem in head.elements:
+                lit = elem.condition.literal
+                local = set(collect_ast(lit, "Variable")) - set(global_vars)
+                tuple_vars = set()
+                for t in elem.terms:
+                    tuple_vars.update(collect_ast(t, "Variable"))
+                if {v for v in local if v.name != "_"} - tuple_vars:
+                    return ([], [])
+        return orig(self, rule)
+
+    sa.SumAggregator._calc_at_most_on_rule = patched
+
+    def undo() -> None:
+        sa.SumAggregator._calc_at_most_on_rule = orig
+
+    return undo
